@@ -6,7 +6,7 @@ from stix2 import properties as P
 from stix2 import registry
 from stix2.exceptions import DuplicateRegistrationError, ParseError, STIXError
 
-from engine.hlib import Native, Part, TIER, V, pick
+from engine.hlib import K, Native, Part, TIER, V, pick
 
 PARTNO = Part.index
 KINDS = ["objects", "observables", "markings", "extensions"]
@@ -438,5 +438,90 @@ def run_scoped_ref_case(reg21, ref21, allow, sight):
         except (STIXError, ValueError):
             return not known and not allow
         return (known or allow) and o.has_custom == (not known)
+    finally:
+        restore(saved)
+
+
+# ---------------------------------------------------------------- a refused registration leaves nothing behind, also when it registers two things at once
+OWN_EXT = "extension-definition--0d0d0d0d-f010-4473-83ec-1edf84858f4c"
+TAKEN_EXT = "extension-definition--0e0e0e0e-f010-4473-83ec-1edf84858f4c"
+REG_FAIL = [
+    # (type name, extension name, expected to be refused)
+    ("identity", OWN_EXT, True), ("file", OWN_EXT, True), ("relationship", OWN_EXT, True), ("x-fresh-type", OWN_EXT, False), ("X-Bad", OWN_EXT, True), ("ab", OWN_EXT, True),
+    ("x-fresh-type", TAKEN_EXT, True), ("x-fresh-type", "extension-definition--foo", True), ("x-fresh-type", "extension-definition--", True),
+    ("x-fresh-type", "bad name", True), ("x-fresh-type", "x-fresh-ext", True), ("x-fresh-type", None, False), ("identity", None, True), ("file", None, True),
+    ("indicator", None, True), ("x-taken-sco", None, True), ("x-taken-sdo", None, True), ("x-taken-sdo", OWN_EXT, True), ("x-taken-sco", OWN_EXT, True),
+    ("x-fresh-type", "extension-definition--0D0D0D0D-f010-4473-83ec-1edf84858f4c", True), ("x-fresh-type", "ntfs-ext", True),
+]
+NRF = len(REG_FAIL)
+
+
+def _is_uuid(t):
+    import uuid
+    try:
+        return str(uuid.UUID(t)) == t
+    except ValueError:
+        return False
+
+
+def registration_failures(ci: int, kind: int) -> bool:
+    """
+    pre: 0 <= ci < NRF and 0 <= kind <= 2
+    post: _
+    """
+    ci, kind = pick(ci, NRF), pick(kind, 3)
+    with Native():
+        ok = run_reg_failure_case(ci, kind)
+    V.reached()
+    return ok
+
+
+def run_reg_failure_case(ci, kind):
+    """kind 0: CustomObject (new SDO), 1: CustomObject(is_sdo=False) (new SRO), 2: CustomObservable"""
+    tname, ename, refused = REG_FAIL[ci]
+    if ename and ename.startswith("extension-definition--") and not _is_uuid(ename[len("extension-definition--"):]) and ename.islower() and K.open("C19-extension-id-not-uuid"):
+        return True                 # listed finding: an extension-definition name whose tail is not a UUID is registered
+    saved = snapshot()
+    try:
+        @stix2.v21.CustomExtension(TAKEN_EXT, [("k", P.StringProperty())])
+        class Taken(object):
+            extension_type = "property-extension"
+
+        @stix2.v21.CustomObject("x-taken-sdo", [("k", P.StringProperty())])
+        class TakenSdo(object):
+            pass
+
+        @stix2.v21.CustomObservable("x-taken-sco", [("k", P.StringProperty())], ["k"])
+        class TakenSco(object):
+            pass
+        before = snapshot()
+        try:
+            kw = {"extension_name": ename} if ename else {}
+            if kind == 2:
+                @stix2.v21.CustomObservable(tname, [("name", P.StringProperty(required=True))], ["name"], **kw)
+                class T(object):
+                    pass
+            else:
+                @stix2.v21.CustomObject(tname, [("name", P.StringProperty(required=True))], is_sdo=kind == 0, **kw)
+                class T(object):
+                    pass
+            got_refused = False
+        except (STIXError, ValueError, TypeError):
+            got_refused = True
+        if got_refused != refused:
+            return False
+        after = snapshot()
+        if got_refused:
+            return after == before                                   # nothing was added, nothing was replaced
+        # accepted: exactly the type (and its extension, if named) were added
+        cat = "observables" if kind == 2 else "objects"
+        added = {(c, n) for c in KINDS for n in after["2.1"][c] if n not in before["2.1"][c]}
+        want = {(cat, tname)} | ({("extensions", ename)} if ename else set())
+        if added != want or after["2.0"] != before["2.0"] or any(after["2.1"][c][n] is not before["2.1"][c][n] for c in KINDS for n in before["2.1"][c]):
+            return False
+        doc = {"type": tname, "spec_version": "2.1", "id": tname + "--311b2d2d-f010-4473-83ec-1edf84858f4c", "name": "n"}
+        if kind != 2:
+            doc.update(created="2020-01-01T00:00:00.000Z", modified="2020-01-01T00:00:00.000Z")
+        return type(stix2.parse(doc)) is T
     finally:
         restore(saved)
